@@ -3,7 +3,9 @@
 Part F  r = apply_json_fragment(old, f, acl) for every (old, f) of one schema and every pointer list of <= 2 glob
         patterns: on the selected parts r equals f (absent in f => absent in r), elsewhere r equals old, and merging
         again changes nothing.  Judged by mc.ref.jsonref.judge_fragment (flattened path sets).
-Part P  json.loads(apply_patch(dumps(old), dumps(make_patch(old, new)))) == new for every ordered pair of one schema.
+Part P  json.loads(apply_patch(dumps(old), dumps(make_patch(old, new)))) == new for every ordered pair of one schema; and
+        the production caller annet.api.PCDeployerJob.parse_result queues, for a JSON-fragment file, exactly the text
+        of that patch, iff the documents differ, together with the file's reload command.
 Part A  apply_acl_filters(d, F) is a sub-document of d lying inside the parts F selects.
 Part C  RunGeneratorResult.new_json_fragment_files with two generators over one file, in both orders (plus a third
         generator on another file, running last, first and between the two): equals the two merges done one after the other, the second merge is judged by the
@@ -110,6 +112,7 @@ def bound_text(tier):
 
 def setup():
     env.setup()
+    env.install_harness_deploy_driver()
     import annet.annlib.jsontools  # noqa: F401
     import annet.generators.result  # noqa: F401
 
@@ -428,6 +431,48 @@ def patch_case(old, new):
     return label + ":viol", bool(patch), viol, 2, counters
 
 
+_JOB_DEV = {}
+
+
+def job_case(old, new):
+    """part P, production caller: annet.api.PCDeployerJob.parse_result for one JSON-fragment file - what it queues for
+    upload must be the text of make_patch(old, new), queued iff the documents differ, with the reload command"""
+    import types
+    from collections import OrderedDict as odict
+    from annet import api, cli_args
+    from annet.annlib import jsontools as jt
+    from annet.types import OldNewResult
+    viol = []
+    if "dev" not in _JOB_DEV:
+        class Dev(types.SimpleNamespace):
+            __hash__ = object.__hash__
+        _JOB_DEV["dev"] = Dev(hw=env.hw("pc"), hostname="h", fqdn="h.example", id=1, breed="pc")
+        _JOB_DEV["args"] = env.deploy_options(entire_reload=cli_args.EntireReloadFlag("yes"))
+    dev = _JOB_DEV["dev"]
+    res = OldNewResult(device=dev, old=odict(), new=odict(), acl_rules=None, old_files={}, new_files={}, partial_result=[],
+                       entire_result=[], old_json_fragment_files={PATH: R.clone(old)},
+                       new_json_fragment_files={PATH: (R.clone(new), "reload-x")}, json_fragment_result={}, implicit_rules=None,
+                       perf={}, acl_safe_rules=None, safe_old=odict(), safe_new=odict(), safe_new_files={},
+                       safe_new_json_fragment_files={}, filter_acl_rules=None)
+    job = api.DeployerJob.from_device(dev, _JOB_DEV["args"])
+    txt = "old=%s new=%s" % (json.dumps(old), json.dumps(new))
+    try:
+        job.parse_result(res)
+        want = jt.format_json(jt.make_patch(R.clone(old), R.clone(new))).encode()
+    except Exception as e:  # noqa  (make_patch's own failures are judged by patch_case)
+        return viol
+    entry = job.deploy_cmds.get(dev)
+    differs = not R.same_value(old, new)
+    if differs != (entry is not None):
+        viol.append(({"kind": "job-upload-decision", "documents_differ": differs, "queued": entry is not None}, txt))
+    elif entry is not None:
+        if set(entry["files"]) != {PATH} or entry["files"][PATH] != want:
+            viol.append(({"kind": "job-uploads-other-patch"}, "%s queued=%r make_patch text=%r" % (txt, entry["files"], want)))
+        if entry["cmds"].get(PATH) != b"reload-x":
+            viol.append(({"kind": "job-reload-command"}, "%s cmds=%r" % (txt, entry["cmds"])))
+    return viol
+
+
 def filter_case(doc, filters):
     label, nontrivial, raw, evals, counters = _filter_raw(doc, filters)
     viol = _finish(raw, lambda d2, f2: _filter_raw(d2[0], f2)[2], [x for x in filters if x.strip()], [doc]) if raw else []
@@ -621,6 +666,7 @@ def run_block(block, ctx):
                     return
                 case = {"part": "P", "old": old, "new": new}
                 res = patch_case(old, new)
+                res[2].extend(job_case(old, new))
                 _account(ctx, *res, case)
                 if res[1] and len(ctx.samples) < 2 and res[0].startswith("P:2"):
                     ctx.sample(dict(case, outcome=res[0]))
@@ -671,6 +717,7 @@ def replay(case):
         res = fragment_case(case["old"], case["frag"], case["acl"])
     elif part == "P":
         res = patch_case(case["old"], case["new"])
+        res[2].extend(job_case(case["old"], case["new"]))
     elif part == "A":
         res = filter_case(case["doc"], case["filters"])
     else:
